@@ -624,6 +624,9 @@ pub fn run(toks: &[&str]) -> Lines {
 
     // 2. a crash at the entry of every file-system call after the marker
     let mut points = 0;
+    let mut reruns = 0;
+    let mut second = 0;
+    let two_level = std::env::var_os("XV_CRASH_TWO_LEVEL").is_some();
     for (i, cp) in crash_points.iter().enumerate() {
         let dn = tmp.path().join(format!("crash{}", i));
         copy_dir(&base, &dn);
@@ -636,9 +639,43 @@ pub fn run(toks: &[&str]) -> Lines {
         points += 1;
         let lines = run_verify(&exe, &dn, &case_text);
         judge(&lines, &format!("crash at the entry of file-system call {} of {} of the operation ({} #{})", i + 1, crash_points.len(), cp.0, cp.1), &mut why, strict);
+        // 3. restart: the operation is run again on the directory the crash left behind ("after any prior history": an
+        // interrupted run is such a history) -- to its end, and, with XV_CRASH_TWO_LEVEL set, with a second crash at the
+        // entry of each of its file-system calls
+        {
+            let dr = tmp.path().join(format!("crash{}_again", i));
+            copy_dir(&dn, &dr);
+            let log2 = tmp.path().join(format!("log2_{}", i));
+            let (ok2, err2) = strace_child(&exe, &dr, &case_text, if two_level { Some(&log2) } else { None }, None);
+            let at = format!("the operation run again after a crash at the entry of file-system call {} of {} ({} #{})", i + 1, crash_points.len(), cp.0, cp.1);
+            if !ok2 {
+                why.push(format!("[C19] {} failed: {}", at, err2.lines().last().unwrap_or("")));
+            } else {
+                reruns += 1;
+                let lines = run_verify(&exe, &dr, &case_text);
+                judge(&lines, &at, &mut why, strict);
+                if two_level {
+                    let inputs2: BTreeSet<String> = std::fs::read_dir(&dn).unwrap().flatten().map(|e| e.file_name().to_string_lossy().to_string()).collect();
+                    let l2 = parse_log(&std::fs::read_to_string(&log2).unwrap_or_default());
+                    let (_, points2) = effects(&l2, &dr, &inputs2);
+                    for (j, cp2) in points2.iter().enumerate() {
+                        let d2 = tmp.path().join(format!("crash{}_{}", i, j));
+                        copy_dir(&dn, &d2);
+                        let (okj, _) = strace_child(&exe, &d2, &case_text, None, Some(cp2));
+                        if !okj {
+                            second += 1;
+                            let lines = run_verify(&exe, &d2, &case_text);
+                            judge(&lines, &format!("second crash at the entry of file-system call {} of {} ({} #{}) of {}", j + 1, points2.len(), cp2.0, cp2.1, at), &mut why, strict);
+                        }
+                        let _ = std::fs::remove_dir_all(&d2);
+                    }
+                }
+            }
+            let _ = std::fs::remove_dir_all(&dr);
+        }
         let _ = std::fs::remove_dir_all(&dn);
     }
-    out.push(("note", format!("crash points exercised: {} of {}", points, crash_points.len())));
+    out.push(("note", format!("crash points exercised: {} of {}; operation run again after a crash: {}; second-level crash points: {}", points, crash_points.len(), reruns, second)));
     if why.is_empty() {
         out.push(("orc", format!("ok points={}", points)));
     } else {
